@@ -189,6 +189,20 @@ def main(tier, seed):
                 for (label, col, row, nlsep) in name_sets(m):
                     if mode in (0, 3) and label not in ('absent', 'plain', 'lookalike'): continue
                     jobs.append((binary, len(jobs), fam, name, m, accname, mode, label, col, row, nlsep))
+    # partial conversion of one constraint type: max(x, y, z) = w with indicators "accepted but not recommended" (level 1): the
+    # big-M conversion of the indicator rows succeeds for the bounded arguments and fails for the unbounded one, which stays
+    # native - converted and native constraints of one type then live in the same keeper
+    from nlmodel import Model, INF
+    ACC['mip+ind1'] = flatcheck.acc_of({'g': 'g0', 'flags': {}, 'types': dict(
+        flatcheck.base_config('g0')['types'], **{'IndicatorConstraint[AlgebraicConstraint< LinTerms, RhsLE >]': 1,
+        'IndicatorConstraint[AlgebraicConstraint< LinTerms, RhsGE >]': 1, 'IndicatorConstraint[AlgebraicConstraint< LinTerms, RhsEQ >]': 1})}, 0)
+    for un in (0, 1, 2):
+        V = [((-INF if i == un else 0.0), 10.0, False, 1.0) for i in range(3)] + [(0.0, 10.0, False, 1.0)]
+        mu = Model(V, acons=[(('max', ('v', 0), ('v', 1), ('v', 2)), {3: -1.0}, 0.0, 0.0), (None, {0: 1.0, 1: 1.0, 2: 1.0, 3: 1.0}, -INF, 20.0)],
+                   obj=('max', None, {3: 1.0}))
+        for mode in (1, 2, 3):
+            jobs.append((binary, len(jobs), 'partial', 'max with unbounded argument %d' % un, mu, 'mip+ind1', mode, 'plain',
+                         ['x', 'y', 'z', 'w'], ['Peak', 'Budget', 'Total'], '\n'))
     classes = set(); n = 0; crashed = 0; named = 0
     with ThreadPoolExecutor(max_workers=vcheck.NCPU) as ex:
         for v, info, cls, ident in ex.map(one, jobs):
